@@ -114,10 +114,12 @@ static cJSON *create_error_object(const struct peer *p, int code, const char *ta
 	if ((tag != NULL) && (reason != NULL)) {
 		cJSON *data = cJSON_CreateObject();
 		if (likely(data != NULL)) {
-			cJSON_AddItemToObject(error, "data", data);
+			/* add_subobject_to_object() deletes data on failure, so attach it to error only afterwards. */
 			if (unlikely(add_subobject_to_object(p, data, cJSON_CreateString(reason), tag) == NULL)) {
+				cJSON_Delete(error);
 				goto err;
 			}
+			cJSON_AddItemToObject(error, "data", data);
 		}
 	}
 
